@@ -8,6 +8,7 @@ EXPL = ("Rules over the MIR of the global_entry_sink! expansion in metrique-serv
         "R17.1 precedence thread-local > runtime > attached as dominance + branch-exclusion; R17.2 the entry is moved into "
         "exactly one append or handed back in Err on every path (path-sensitive linearity with drop flags); R17.3 no lock/"
         "borrow guard is live at any explicit panic; R17.5 each guard destructor performs its restoring action on every path. "
+        "R17.3 #nothing-stored-before-rejection: in an installing body that can reject (explicit panic), every store into the shared map / cell that can be followed by the panic is control-dependent on a vacancy test. "
         "Not decided: cross-thread / runtime histories.")
 
 SM = "metrique_service_metrics"
@@ -374,6 +375,42 @@ def run(ctx):
             else:
                 ctx.ok("R17.3", fnkey(b) + "#guard-live-at-panic", loc(b), "%d panic site(s), no guard live at any" % len([c for c in b.calls() if c.diverges]))
     ctx.floor("R17.3", "bodies with both a guard local and an explicit panic", nb, 2)
+    # R17.3 #nothing-stored-before-rejection (seed S142): a rejected installation "leaves the global undamaged" only if the rejection is
+    # decided before anything is stored: a store into the shared map / cell (HashMap::insert, Option::replace/insert, mem::replace/swap)
+    # that can be followed by the body's explicit panic must be control-dependent on a test (vacancy check); `insert(..).is_some()`
+    # stores unconditionally and decides afterwards. (Plain reachability store -> panic is path-insensitive and alarms on today's tree.)
+    STORES = ("insert", "replace", "swap")
+    nrej = 0
+    for crate in (SM, "metrique_writer_core"):
+        for b in F.all_bodies(crate):
+            panics = [c for c in b.calls() if c.diverges and c.name in ("panic_fmt", "panic", "begin_panic", "panic_display", "panic_str")]
+            stores = [c for c in b.calls() if c.name in STORES and any(k in (c.def_ or "") for k in ("HashMap", "BTreeMap", "Option", "mem::", "RefCell", "Cell"))]
+            if not panics or not stores:
+                continue
+            nrej += 1
+            from rules.c12 import controlling_switches, discr_def
+            VAC = ("contains_key", "is_some", "is_none", "get", "is_empty", "get_mut")
+            unguarded = []
+            for s in stores:
+                if not any(p_.bb in b.reachable_after(s.bb) for p_ in panics):
+                    continue          # the store cannot be followed by the rejection at all
+                ok_g = False
+                for gi, gt, yes, no in controlling_switches(b, s.bb):
+                    rv = discr_def(b, gi, gt)
+                    if rv is not None and rv.get("k") == "call" and (rv["term"].get("callee") or {}).get("name") in VAC:
+                        ok_g = True
+                    elif rv is not None and rv.get("k") == "unop":
+                        ok_g = True
+                    elif rv is not None and rv.get("k") in ("discriminant", "use"):
+                        ok_g = True
+                if not ok_g:
+                    unguarded.append(s)
+            ctx.check(not unguarded, "R17.3", fnkey(b) + "#nothing-stored-before-rejection", loc(b, unguarded[0].bb if unguarded else panics[0].bb),
+                      "the installing body stores into the shared map / cell (`%s`) unconditionally and can still reach its explicit panic afterwards: "
+                      "the rejection is decided after the overwrite, so a rejected installation has already replaced the sink that was installed "
+                      "first" % (unguarded[0].name if unguarded else ""),
+                      "%d store(s), %d explicit panic(s); every store that can be followed by the panic is control-dependent on a vacancy test" % (len(stores), len(panics)))
+    ctx.floor("R17.3", "installing bodies that can reject (store + explicit panic)", nrej, 1)
 
     # R17.5 restore on drop
     attach_handle_rules(ctx, F, "R17.5")
